@@ -1,14 +1,20 @@
 #!/bin/sh
-# usage: try_mutant.sh <mutant dir with patch.diff> <property id>...
-# Applies the patch to /repo, runs the checks, and ALWAYS reverts the patch.
+# usage: try_mutant.sh <ABSOLUTE mutant dir with patch.diff> <property id>...
+# Applies the patch to /repo, runs the checks, and ALWAYS reverts the patch
+# (also when interrupted or when the output pipe is closed).
 d="$1"; shift
 cd /repo || exit 2
-if ! git apply --check "$d/patch.diff" 2>/dev/null; then echo "PATCH DOES NOT APPLY: $d"; exit 3; fi
 if ! git diff --quiet HEAD --; then echo "REFUSING: /repo has uncommitted changes"; exit 4; fi
+if ! git apply --check "$d/patch.diff" 2>/dev/null; then echo "PATCH DOES NOT APPLY: $d"; exit 3; fi
+revert() { git -C /repo diff --quiet HEAD -- || git -C /repo apply -R "$d/patch.diff"; }
+trap 'revert; exit 130' INT TERM HUP PIPE
 git apply "$d/patch.diff"
+out=$(mktemp)
 for p in "$@"; do
-  (cd /verif && ./check "$p" -no-evidence 2>&1 | grep -E "^(VIOLATION|KNOWN|NO VERDICT|C[0-9]+ )" )
-  echo "exit($p)=$?"
+  (cd /verif && ./check "$p" -no-evidence > "$out" 2>&1; echo "exit($p)=$?" >> "$out")
+  grep -E "^(VIOLATION|KNOWN|NO VERDICT|C[0-9]+ |exit)" "$out"
 done
-if ! git -C /repo diff --quiet HEAD -- ; then git -C /repo apply -R "$d/patch.diff"; fi
-git -C /repo status --short | grep -v '^??' | head -3
+rm -f "$out"
+revert
+git -C /repo status --short | grep -v '^??'
+exit 0
